@@ -62,6 +62,7 @@ func RunTamper(s *kernel.Sim, prof *Profile) *Env {
 		return e
 	}
 
+	mustFail := false
 	tryOpen := func(what string, data []byte, kek *KEK) {
 		p := filepath.Join(e.Dir, "tampered.db")
 		os.WriteFile(p, data, 0o600)
@@ -72,6 +73,10 @@ func RunTamper(s *kernel.Sim, prof *Profile) *Env {
 		}()
 		d, err := db.Open(p, kek, audit.New(discard{}))
 		if err != nil {
+			return
+		}
+		if mustFail {
+			e.fail("tamper", "%s: Open succeeded; the database must open only with the key-encryption key it was created with", what)
 			return
 		}
 		old := e.DB
@@ -109,7 +114,12 @@ func RunTamper(s *kernel.Sim, prof *Profile) *Env {
 		if other.inner == e.KEK.inner {
 			continue
 		}
+		mustFail = true
 		tryOpen(fmt.Sprintf("foreign key-encryption key %d", k), orig, other)
+		// ... and a key service that refuses
+		down := &KEK{inner: e.KEK.inner, Outage: true}
+		tryOpen("key-encryption key unavailable (every call fails)", orig, down)
+		mustFail = false
 		s.Faults["wrong-kek"]++
 	}
 	// a second database: same KEK, and one under a different KEK
